@@ -56,6 +56,9 @@ CONFIG = {
         "not run (resource guard): ranges expanding to more than 100 000 numbers (guard kept from K6; since F18 only ranges INSIDE the boundary expand), random / t-wise limits above 64, save-* to absolute paths "
         "outside the scratch directory; the sampling choices of `random` are replayed from hook H2, atomic / t-wise answers are replayed",
         "without repo_patches/F2-stream-panics.patch applied to /repo this check reports VIOLATION (stream:panic)",
+        "the enum cursor is the one of the SET of assumed literals (enum_key, repair F19 of finding K12): a fixed battery of `enum a ...` lines spelling "
+        "{1} and {1,-2} with repeated literals in different orders is compared exactly; without repo_patches/F19-enum-cursor-key-set.patch applied to /repo "
+        "this check reports 22 DIFFs (the second spelling starts a cycle of its own)",
     ],
     "rule": "one case = one block of up to 2500 lines on one long-lived instance; evaluations = blocks; the line counts are in driver_stats "
             "(c13_lines, c13_answer_<code> = error-kind histogram); non-trivial = flattened circuit has And and Or nodes",
